@@ -338,7 +338,9 @@ func genReadonly(r *rand.Rand, s *scriptWriter, ids []string, length int) {
 
 // genHeap: op; Mutate; op; Mutate histories over shared operands (C12).
 func genHeap(r *rand.Rand, s *scriptWriter, ids []string, length int) {
-	o := listOpts{ids: ids, rich: 0.5, types: edgeTypes2, maxNodes: len(ids)}
+	// a third of the histories start from well-formed lists that are not normalised (repeated targets, several edges per
+	// source and type): a copy must reproduce them as they are
+	o := listOpts{ids: ids, rich: 0.5, types: edgeTypes2, maxNodes: len(ids), parallel: r.Intn(3) == 0}
 	s.reset(map[string]*sbom.NodeList{"a": randList(r, o), "b": randList(r, o), "c": emptyNL(), "d": emptyNL()})
 	regs := []string{"a", "b", "c", "d"}
 	for j := 0; j < length; j++ {
